@@ -139,7 +139,12 @@ func CallsReuse(w *wl.Workload, mo MapOrder, attSrc func(a *wl.Attachment) io.Re
 		mo = func(in []wl.KV) []wl.KV { return in }
 	}
 	if attSrc == nil {
-		attSrc = func(a *wl.Attachment) io.Reader { return bytes.NewReader(a.Data) }
+		attSrc = func(a *wl.Attachment) io.Reader {
+			if len(a.Data) == 0 && a.CreateTime%2 == 1 {
+				return nil // "no data" said the obvious way: DataSize 0 and no reader at all
+			}
+			return bytes.NewReader(a.Data)
+		}
 	}
 	var (
 		rHeader  mcap.Header
